@@ -30,6 +30,10 @@ thread_local! {
     pub static BLOCKED: RefCell<BTreeSet<String>> = const { RefCell::new(BTreeSet::new()) };
     /// sub-messages returned by the last shim call
     pub static SUBLOG: RefCell<Vec<SubLog>> = const { RefCell::new(Vec::new()) };
+    /// the next n cw20 transfers fail as if they had run into their gas limit - whatever happens to the
+    /// failing call's storage (this counter is not part of any contract's state, so a second attempt in
+    /// the same transaction gets through)
+    pub static FAIL_NEXT: std::cell::Cell<u32> = const { std::cell::Cell::new(0) };
 }
 
 #[derive(Clone, Debug, PartialEq)]
@@ -150,6 +154,7 @@ pub type IApp = App<FaultyBank, cosmwasm_std::testing::MockApi, cosmwasm_std::te
 pub fn new_app() -> IApp {
     BLOCKED.with(|b| b.borrow_mut().clear());
     SUBLOG.with(|l| l.borrow_mut().clear());
+    set_fail_next(0);
     AppBuilder::new().with_bank(FaultyBank::new()).with_ibc(RecIbc).build(|_, _, _| {})
 }
 
@@ -219,10 +224,17 @@ fn shim_sudo(deps: DepsMut, env: Env, msg: Shim) -> StdResult<Response> {
     }
 }
 
+/// `reply` with the messages it returns recorded like those of the ibc entry points
+fn shim_reply(deps: DepsMut, env: Env, msg: cosmwasm_std::Reply) -> Result<Response, cw20_ics20::ContractError> {
+    let r = cw20_ics20::ibc::reply(deps, env, msg)?;
+    log_subs(&r.messages);
+    Ok(r)
+}
+
 pub fn ics20_contract() -> Box<dyn Contract<Empty>> {
     Box::new(
         ContractWrapper::new(cw20_ics20::contract::execute, cw20_ics20::contract::instantiate, cw20_ics20::contract::query)
-            .with_reply(cw20_ics20::ibc::reply)
+            .with_reply(shim_reply)
             .with_migrate(cw20_ics20::contract::migrate)
             .with_sudo(shim_sudo),
     )
@@ -241,9 +253,22 @@ pub enum FlakyCtl {
     SetQuery { on: bool },
 }
 
+pub fn set_fail_next(n: u32) {
+    FAIL_NEXT.with(|c| c.set(n));
+}
+
 fn flaky_execute(deps: DepsMut, env: Env, info: MessageInfo, msg: cw20::Cw20ExecuteMsg) -> Result<Response, cw20_base::ContractError> {
-    if matches!(msg, cw20::Cw20ExecuteMsg::Transfer { .. }) && FLAKY.may_load(deps.storage)?.unwrap_or(false) {
-        return Err(StdError::generic_err("flaky cw20: transfers are switched off (injected fault)").into());
+    if matches!(msg, cw20::Cw20ExecuteMsg::Transfer { .. }) && FAIL_NEXT.with(|c| c.get()) > 0 {
+        FAIL_NEXT.with(|c| c.set(c.get() - 1));
+        return Err(StdError::generic_err("codespace: sdk, code: 11: out of gas (injected one-shot fault)").into());
+    }
+    if let cw20::Cw20ExecuteMsg::Transfer { amount, .. } = &msg {
+        if FLAKY.may_load(deps.storage)?.unwrap_or(false) {
+            // two kinds of failure text: a plain refusal, and (for even amounts) what a sub-call that ran into
+            // its gas limit reports
+            let text = if amount.u128() % 2 == 0 { "codespace: sdk, code: 11: out of gas (injected fault)" } else { "flaky cw20: transfers are switched off (injected fault)" };
+            return Err(StdError::generic_err(text).into());
+        }
     }
     cw20_base::contract::execute(deps, env, info, msg)
 }
